@@ -1,10 +1,16 @@
 #!/bin/bash
-# run_seed.sh <seed-id> [property-id] : apply a seeded change to /repo, run the check, undo it.
-id=$1; prop=${2:-${1%%-*}}
+# run_seed.sh <seed-id> [property-id] [tier]: check a seeded change in a scratch worktree of /repo
+# (VERIF_REPO/VERIF_OUT redirect the check; /repo itself and /verif/evidence are untouched).
+id=$1; prop=${2:-${1%%-*}}; tier=${3:-quick}
+wt=/tmp/seedwt/$id; out=/tmp/seedout/$id
+rm -rf $out; mkdir -p /tmp/seedwt $out
+git -C /repo worktree remove --force $wt 2>/dev/null
+git -C /repo worktree add -q --detach $wt HEAD || exit 2
+git -C $wt apply /verif/seeded/$id/patch.diff || { echo "patch does not apply"; git -C /repo worktree remove --force $wt; exit 2; }
 cd /verif
-git -C /repo apply /verif/seeded/$id/patch.diff || { echo "patch does not apply"; exit 2; }
-timeout 1800 ./check $prop > /tmp/seedrun_$id.log 2>&1; rc=$?
-git -C /repo checkout -- .
-echo "seed=$id property=$prop check_exit=$rc"
-grep -m3 "^VIOLATION\|^  harness" /tmp/seedrun_$id.log | cut -c1-300
-grep "^INCONCLUSIVE" /tmp/seedrun_$id.log | head -3 | cut -c1-300
+VERIF_REPO=$wt VERIF_OUT=$out timeout ${SEED_TIMEOUT:-2400} ./check $prop --tier $tier > /tmp/seedrun_$id.log 2>&1; rc=$?
+git -C /repo worktree remove --force $wt
+echo "seed=$id property=$prop tier=$tier check_exit=$rc"
+grep -m4 "^VIOLATION\|^KNOWN-FINDING" /tmp/seedrun_$id.log | cut -c1-300
+grep "^INCONCLUSIVE\|^PROBLEM" /tmp/seedrun_$id.log | head -3 | cut -c1-300
+rm -rf $out/.work
